@@ -58,11 +58,93 @@ class _LowerIfExp(ast.NodeTransformer):
         return node
 
 
+class _LoopToComp(ast.NodeTransformer):
+    """`L = []` + `for T in IT: [if C: continue]* L.append(E)`  ->  `L = [E for T in IT if not C ...]` (also `if C: L.append(E)`,
+    dict `D[K] = V` and set `S.add(E)` accumulators).  Only when the loop does nothing else and T is not read afterwards in the
+    same block: the explicit loop and the comprehension then build the same collection in the same order."""
+
+    def _filters_and_elt(self, body, acc):
+        """-> (list of filter tests, ('list'|'set', E) | ('dict', K, V)) or None"""
+        filters = []
+        stmts = list(body)
+        while stmts:
+            st = stmts[0]
+            if isinstance(st, ast.If) and not st.orelse and len(st.body) == 1 and isinstance(st.body[0], ast.Continue) and len(stmts) > 1:
+                from .inline import _negate
+                filters.append(_negate(st.test))
+                stmts = stmts[1:]
+                continue
+            if isinstance(st, ast.If) and not st.orelse and len(stmts) == 1:
+                filters.append(st.test)
+                stmts = list(st.body)
+                continue
+            break
+        if len(stmts) != 1:
+            return None
+        st = stmts[0]
+        if isinstance(st, ast.Expr) and isinstance(st.value, ast.Call) and isinstance(st.value.func, ast.Attribute) and \
+                isinstance(st.value.func.value, ast.Name) and st.value.func.value.id == acc and len(st.value.args) == 1 and not st.value.keywords:
+            if st.value.func.attr == 'append':
+                return filters, ('list', st.value.args[0])
+            if st.value.func.attr == 'add':
+                return filters, ('set', st.value.args[0])
+        if isinstance(st, ast.Assign) and len(st.targets) == 1 and isinstance(st.targets[0], ast.Subscript) and \
+                isinstance(st.targets[0].value, ast.Name) and st.targets[0].value.id == acc:
+            return filters, ('dict', st.targets[0].slice, st.value)
+        return None
+
+    def _rewrite(self, stmts):
+        out, i = [], 0
+        while i < len(stmts):
+            a = stmts[i]
+            b = stmts[i + 1] if i + 1 < len(stmts) else None
+            if isinstance(a, ast.Assign) and len(a.targets) == 1 and isinstance(a.targets[0], ast.Name) and isinstance(b, ast.For) and not b.orelse:
+                acc = a.targets[0].id
+                kind0 = 'list' if isinstance(a.value, ast.List) and not a.value.elts else \
+                    'dict' if isinstance(a.value, ast.Dict) and not a.value.keys else \
+                    'set' if isinstance(a.value, ast.Call) and isinstance(a.value.func, ast.Name) and a.value.func.id == 'set' and not a.value.args else None
+                fe = self._filters_and_elt(b.body, acc) if kind0 else None
+                tnames = {n.id for n in ast.walk(b.target) if isinstance(n, ast.Name)}
+                later = {n.id for s_ in stmts[i + 2:] for n in ast.walk(s_) if isinstance(n, ast.Name)}
+                inner = {n.id for x in ([b.iter] + (list(fe[0]) if fe else [])) for n in ast.walk(x) if isinstance(n, ast.Name)}
+                if fe and fe[1][0] == kind0 and not (tnames & later) and acc not in inner and acc not in tnames and \
+                        not any(isinstance(n, (ast.Yield, ast.YieldFrom, ast.Await)) for n in ast.walk(b)):
+                    gen = ast.comprehension(target=b.target, iter=b.iter, ifs=fe[0], is_async=0)
+                    if kind0 == 'list':
+                        comp = ast.ListComp(elt=fe[1][1], generators=[gen])
+                    elif kind0 == 'set':
+                        comp = ast.SetComp(elt=fe[1][1], generators=[gen])
+                    else:
+                        comp = ast.DictComp(key=fe[1][1], value=fe[1][2], generators=[gen])
+                    if acc not in {n.id for n in ast.walk(comp) if isinstance(n, ast.Name)}:
+                        out.append(ast.copy_location(ast.Assign(targets=[a.targets[0]], value=ast.copy_location(comp, b), type_comment=None), a))
+                        i += 2
+                        continue
+            out.append(a)
+            i += 1
+        return out
+
+    def generic_visit(self, node):
+        super().generic_visit(node)
+        for fld in ('body', 'orelse', 'finalbody'):
+            blk = getattr(node, fld, None)
+            if isinstance(blk, list) and blk and isinstance(blk[0], ast.stmt):
+                setattr(node, fld, self._rewrite(blk))
+        return node
+
+
+def normalise_tree(tree):
+    """syntactic normal forms applied to every module at parse time"""
+    tree = _LowerIfExp().visit(tree)
+    tree = _LoopToComp().visit(tree)
+    return ast.fix_missing_locations(tree)
+
+
 class Module:
     def __init__(self, rel, src):
         self.rel, self.src = rel, src
         self.tree = ast.parse(src, filename=rel)
-        self.tree = ast.fix_missing_locations(_LowerIfExp().visit(self.tree))
+        self.tree = normalise_tree(self.tree)
         self.tree._parent = None
         for node in ast.walk(self.tree):
             for child in ast.iter_child_nodes(node):
@@ -282,7 +364,11 @@ class Repo:
 
     def _normalise(self):
         """inline the functions the rules do not know into their callers (sa/inline.py)"""
-        from .inline import normalise
+        from .inline import normalise, lower_lock_idiom
+        srcs = {rel: m.src for rel, m in self.modules.items()}
+        for rel, t in lower_lock_idiom({rel: m.tree for rel, m in self.modules.items()}, srcs).items():
+            self.modules[rel] = self.modules[rel].with_tree(t)
+            self.modules[rel].lock_idiom_lowered = True
         changed, self.inline_report = normalise({rel: m.tree for rel, m in self.modules.items()}, sources={rel: m.src for rel, m in self.modules.items()})
         for rel, t in changed.items():
             self.modules[rel] = self.modules[rel].with_tree(t)
